@@ -39,8 +39,11 @@ def deps : String → List Dep
   | _ => []
 
 /-- mechanisms whose rule-level validation (assertions / expressions) is not part of the key: it has to be repeated
-on every hit (`Validate` / `verify` of the Go code) -/
-def rechecked : List (String × String) := [("introspection", "Validate"), ("remoteAuthorizer", "verify")]
+on **every** hit (`Validate` / `verify` → `eval` of the Go code). The extractor reports a call that is not executed on
+every pass through the hit block (guarded by anything but an error check, behind a guarded early exit, in a loop or
+closure) with a leading `?`, which does not count. -/
+def rechecked : List (String × String) :=
+  [("introspection", "Validate"), ("remoteAuthorizer", "verify"), ("remoteAuthorizer", "eval")]
 
 /-- `a` occurs in the call sequence, and `b` occurs only after it -/
 def before (a b : String) : List String → Bool
